@@ -283,7 +283,11 @@ def _oracle_docs_failures(a):
                 exp = [(ch.tag, etree.tostring(ch, method="c14n", with_tail=False)) for ch in root]
                 if sorted(got) != sorted(exp):
                     yield f"document {doc} re-serialised with other content ({opts}): {out}"
-                    continue
+                    # finding C16-any-drops-text: when the difference is exactly the one the finding describes, the
+                    # remaining clauses (attributes, order, validity) are still judged, against what the finding predicts
+                    exp = any_predicted(root, kinds)
+                    if exp is None or sorted(got) != sorted(exp):
+                        continue
                 # attribute defaults and fixed values materialised as the DTD prescribes
                 exp_attrs = dict(given)
                 for i in attrs:
@@ -367,36 +371,119 @@ def true_max(p, n):
     return c02.true_max(p, n)
 
 
+def any_predicted(root, kinds):
+    """what the UNCHANGED code keeps of a document under finding C16-any-drops-text (independent description,
+    lxml only): inside every child of `r` that is declared ANY the character data that follows a child element
+    (the tails of its children) is gone, everything else is as in the document.  Returns the children of `r`
+    as the oracle compares them, or None when the document has no such character data (the finding says nothing
+    about it)."""
+    import copy
+
+    from lxml import etree
+
+    pred = copy.deepcopy(root)
+    hit = False
+    for ch in pred:
+        if (kinds or {}).get(ch.tag) != "any":
+            continue
+        for g in ch:
+            if (g.tail or "").strip():
+                hit = True
+            g.tail = None
+    if not hit:
+        return None
+    return [(ch.tag, etree.tostring(ch, method="c14n", with_tail=False)) for ch in pred]
+
+
 def any_text_after_child(a, msg):
-    """the failing document (quoted in the message) has a child that is declared ANY and carries character data
-    after a child element of its own"""
+    """the failure is exactly the one of finding C16-any-drops-text: the failing document and its re-serialisation
+    (both quoted in the message) differ by the character data after a child inside an element declared ANY, and by
+    nothing else (a document of that shape that comes back with any OTHER content is a new violation)"""
     import re
 
     from lxml import etree
 
     kinds = a.get("kinds") or {}
-    m = re.search(r"document (<r.*?</r>|<r[^>]*/>)", msg, re.S)
-    if not m or "other content" not in msg:
+    m = re.search(r"document (<r.*?</r>|<r[^>]*/>) re-serialised with other content \([^)]*\): (.*)$", msg, re.S)
+    if not m:
         return False
     try:
         root = etree.fromstring(m.group(1).encode())
-    except etree.XMLSyntaxError:
+        back = etree.fromstring(m.group(2).strip().encode())
+    except (etree.XMLSyntaxError, ValueError):
         return False
-    return any(kinds.get(ch.tag) == "any" and any((g.tail or "").strip() for g in ch) for ch in root)
+    pred = any_predicted(root, kinds)
+    got = [(ch.tag, etree.tostring(ch, method="c14n", with_tail=False)) for ch in back]
+    return pred is not None and sorted(got) == sorted(pred)
+
+
+_MODEL_BOUNDS = {}
+
+
+def model_bounds(c):
+    """name -> (min, max) of the element fields the UNCHANGED code generates for this content model: replay of the
+    Lean model (driver op gen.dtd_occurs, the definition the C16 theorems and counterexamples are about).  None when
+    the driver cannot be asked."""
+    import framework
+
+    dtd = G.dtd_doc(c)
+    if dtd not in _MODEL_BOUNDS:
+        try:
+            content, _ = G.real_dtd(dtd)
+            out = framework.Driver().run([{"op": "gen.dtd_occurs", "args": {"content": content, "dtd": dtd}}])[0]
+            _MODEL_BOUNDS[dtd] = {s["name"]: (s["min"], s["max"]) for s in out["ok"]}
+        except Exception:  # noqa: BLE001
+            _MODEL_BOUNDS[dtd] = None
+    return _MODEL_BOUNDS[dtd]
 
 
 def covered_docs(a, msg):
+    """a failure belongs to a listed finding only if it is the failure the finding describes:
+    C16-any-drops-text         the re-serialised document lacks exactly the character data after a child inside an ANY element;
+    C16-duplicate-name-sites   (a) `Unknown property r:n` for a name n declared at several sites that the document carries more
+                               often than the single merged field admits (bounds replayed on the model), or (b) with compound
+                               fields only the elements with such names lose their place / are dropped: the other children
+                               come back unchanged and in order.
+    Any other failure on such a DTD (another name, another exception, a changed value, lost attributes) is reported."""
+    import re
+
+    from lxml import etree
+
     c = a["content"]
     if any_text_after_child(a, msg):
         return "C16-any-drops-text"
-    dup = len(set(G.dtd_names(c))) != len(G.dtd_names(c))
-    if not dup:
+    names = G.dtd_names(c)
+    dups = {n for n in names if names.count(n) > 1}
+    if not dups:
         return None
-    if "rejected" in msg and ("Unknown property" in msg or "Failed to create" in msg or "missing" in msg):
-        return "C16-duplicate-name-sites"
-    if dup and ("another element order" in msg or "not DTD-valid" in msg or "other content ({'compound_fields': True})" in msg):
-        # one field per element name: two sites of one name cannot both keep their place
-        return "C16-duplicate-name-sites"
+    m = re.search(r"DTD-valid document (<r.*?</r>|<r[^>]*/>) rejected \([^)]*\): ParserError: Unknown property r:([^\s:]+)\s*$", msg, re.S)
+    if m:
+        n = m.group(2)
+        if n not in dups:
+            return None
+        try:
+            count = sum(1 for ch in etree.fromstring(m.group(1).encode()) if ch.tag == n)
+        except etree.XMLSyntaxError:
+            return None
+        bounds = model_bounds(c)
+        limit = bounds[n][1] if bounds and n in bounds else 1
+        return "C16-duplicate-name-sites" if count > limit else None
+    m = re.search(r"document (<r.*?</r>|<r[^>]*/>) re-serialised (?:in another element order with compound fields: |"
+                  r"with other content \({'compound_fields': True}\): |as )(<\?xml.*?</r>|<\?xml.*?<r[^>]*/>)(, which is not DTD-valid)?\s*$", msg, re.S)
+    if m:
+        try:
+            root = etree.fromstring(m.group(1).encode())
+            back = etree.fromstring(m.group(2).encode())
+        except (etree.XMLSyntaxError, ValueError):
+            return None
+
+        import props.c02 as c02
+
+        got = [(ch.tag, etree.tostring(ch, method="c14n", with_tail=False)) for ch in back]
+        exps = [[(ch.tag, etree.tostring(ch, method="c14n", with_tail=False)) for ch in root], any_predicted(root, a.get("kinds") or {})]
+        if any(e is not None and c02.displaced_only_around(G.dtd_particle(c), dups, e, got) for e in exps):
+            # one field per element name: two sites of one name cannot both keep their place
+            return "C16-duplicate-name-sites"
     return None
 
 
@@ -408,17 +495,30 @@ ORACLES = [Oracle("c16.valid_docs", gen_docs, oracle_docs, covered=covered_docs)
 
 
 def impl_e2e(a):
+    """`faithful`, or `finding:<id>` when every failure of the input is one a listed finding describes
+    (oracle_docs returns an uncovered failure whenever there is one), else the failure"""
     msg = oracle_docs(a)
-    return ok("faithful") if msg is None else {"err": msg[:160]}
+    if msg is None:
+        return ok("faithful")
+    fid = covered_docs(a, msg)
+    return ok("finding:" + fid) if fid else {"err": msg[:160]}
 
 
 def spec_e2e(a):
-    """the property itself outside the listed findings: every DTD-valid document is accepted by
-    the strict parser and comes back with the same content and the prescribed attribute values"""
-    c = a["content"]
-    if len(set(G.dtd_names(c))) != len(G.dtd_names(c)):
-        return {"unspecified": "an element name at several sites (finding C16-duplicate-name-sites)"}
+    """the property itself: every DTD-valid document is accepted by the strict parser and comes back with the same
+    content and the prescribed attribute values.  (No region is left unspecified: `compare_e2e` admits the answer
+    `finding:C16-duplicate-name-sites` only for a content model with an element name at several sites, and only
+    when the coverage predicate recognised the failure itself.)"""
     return ok("faithful")
+
+
+def compare_e2e(m, i, a):
+    if m == i:
+        return True
+    names = G.dtd_names(a["content"])
+    if "any" in (a.get("kinds") or {}).values() and i == ok("finding:C16-any-drops-text"):
+        return True
+    return len(set(names)) != len(names) and i == ok("finding:C16-duplicate-name-sites")
 
 
 def gen_restricted(rng):
@@ -585,7 +685,7 @@ def classify_enum_default(a, out):
 
 
 CORRS = [
-    Corr("c16.e2e", gen_e2e, impl_e2e, spec=spec_e2e,
+    Corr("c16.e2e", gen_e2e, impl_e2e, spec=spec_e2e, compare=compare_e2e,
          describe="spec-level: DTD (content model, ATTLIST variants, xmlns declarations) -> real pipeline (default and compound fields) -> strict parse of valid documents -> re-serialise; expected: faithful"),
     Corr("gen.dtd_nsmap", gen_nsmap, impl_nsmap, nontrivial=lambda a, o: len(a["attrs"]) > 1,
          describe="DtdParser.build_ns_map on constructed attribute lists vs model"),
@@ -605,8 +705,9 @@ CORRS = [
 
 
 def finding_dup():
-    msg = oracle_docs({"content": HAND[5], "words": [["a", "a"]], "attrs": []})
-    return (msg is not None and "rejected" in msg, msg or "the document now parses")
+    a = {"content": HAND[5], "words": [["a", "a"]], "attrs": []}
+    msg = oracle_docs(a)
+    return (msg is not None and "rejected" in msg and covered_docs(a, msg) == "C16-duplicate-name-sites", msg or "the document now parses")
 
 
 def finding_any_text():
